@@ -41,16 +41,16 @@ def run(ctx, res):
         "video_sink_bytes_waiting is an advisory statistic outside every property (reads cursors unlocked)",
     ]
     fns = channel_functions(prog)
-    LR.rule_l_pair(la, res, fns)
+    res.guard(LR.rule_l_pair, la, res, fns)
     n = LR.rule_l_guarded(la, res, ("channel", "lock"), CHANNEL_FIELDS,
                           exempt_fns={"video_sink_bytes_waiting": "advisory statistic, read-only, outside every property"})
-    rule_empty_drained(prog, res)
-    rule_registration(prog, la, res)
-    rule_dimensions(prog, res)
-    rule_cursor_pair(prog, res, la)
-    rule_cursor_copy(prog, res, la)
+    res.guard(rule_empty_drained, prog, res)
+    res.guard(rule_registration, prog, la, res)
+    res.guard(rule_dimensions, prog, res)
+    res.guard(rule_cursor_pair, prog, res, la)
+    res.guard(rule_cursor_copy, prog, res, la)
     from ..channelarith import rule_linear
-    rule_linear(prog, res)
+    res.guard(rule_linear, prog, res)
     res.require_min("R-LIN", 15)
     res.require_min("R-CURSOR-PAIR", 3)
     res.require_min("L-PAIR", 10)
